@@ -3,6 +3,7 @@ import NloptModel.Model.UtilDriver
 import NloptModel.Model.RBTree
 import NloptModel.Model.Sobol
 import NloptModel.Model.WrapDriver
+import NloptModel.Model.Glue
 /-! `nlopt_model <stream>`: line-protocol driver.  Reads operation lines on stdin, prints one
     canonical result line per operation.  Arithmetic is the hardware's (through `Float`). -/
 open Nlopt
@@ -24,6 +25,20 @@ def nativeArith : Arith where
   ofInt i := lf (Float.ofInt i)
   toInt a := (fl a).toInt64.toInt
 
+/-- S-glue stream: `site <id> <lb> <ub> <proposal>` → delivered point -/
+def glueStep (A : Arith) (u : Unit) (line : String) : Unit × String :=
+  let pl (t : String) : List F64 := (WrapDrv.parseList t).getD []
+  match (line.trimAscii.toString.splitOn " ").filter (· ≠ "") with
+  | ["site", id, lb, ub, x] =>
+    let r := match id with
+      | "101" => Glue.xBound A (pl lb) (pl ub) (pl x)
+      | "102" | "103" | "104" => Glue.clampSite (pl lb) (pl ub) (pl x)
+      | "105" => Glue.passSite (pl x)
+      | "106" => Glue.zip3 Glue.clampTwo (pl lb) (pl ub) (pl x)
+      | _ => []
+    (u, WrapDrv.hexList r)
+  | _ => (u, "bad-op")
+
 partial def loop {σ : Type} (h : IO.FS.Stream) (out : IO.FS.Stream) (st : σ) (step : σ → String → σ × String) : IO Unit := do
   let line ← h.getLine
   if line.isEmpty then return ()
@@ -40,5 +55,6 @@ def main (args : List String) : IO UInt32 := do
   | ["rb"] => loop stdin stdout RB.Tree.nil (fun t l => if l.trimAscii.toString == "reset" then (RB.Tree.nil, "ok") else RB.rbStep t l); return 0
   | ["sobol"] => loop stdin stdout Sobol.State.empty Sobol.sobolStep; return 0
   | ["wrap"] => loop stdin stdout ({} : WrapDrv.Rec) (WrapDrv.step nativeArith); return 0
+  | ["glue"] => loop stdin stdout () (glueStep nativeArith); return 0
   | ["stop"] => loop stdin stdout () (UtilDrv.stopStep nativeArith); return 0
   | _ => IO.eprintln "usage: nlopt_model <api|...>"; return 2
